@@ -207,6 +207,99 @@ def sweep_heading(cls):
     return None
 
 
+# ---- heading sections (doc / docx / odt): every body paragraph lands in the unit of ITS section ------------------
+# A document is a list of paragraphs [kind, text]: kind "h1"/"h2" = heading of that outline level, "p" = body.
+# Spec (statement): headings with non-empty text split the body into sections, in order; the non-empty body
+# paragraphs of one section are the text of exactly one unit ("\n"-joined), no unit holds text of two sections,
+# units numbered 1..m.  Units without text (heading-only sections) are allowed: their heading is their heading path.
+HEAD_TEXT = {"DocContent": {"h1": "Chapter One", "h2": "Subsection One"}, "DocxContent": {"h1": "Item", "h2": "Sub"},
+             "OdtContent": {"h1": "Item", "h2": "Sub"}}
+
+
+def build_heading_doc(cls, paras):
+    dt = _dt()
+    if cls == "DocxContent":
+        ps = [dt.DocxParagraph(text=t, style=("Normal" if k == "p" else f"Heading {k[1]}")) for k, t in paras]
+        return dt.DocxContent(paragraphs=ps, full_text="\n".join(p.text for p in ps))
+    if cls == "OdtContent":
+        ps = [dt.OdtParagraph(text=t, outline_level=(None if k == "p" else int(k[1]))) for k, t in paras]
+        return dt.OdtContent(paragraphs=ps, full_text="\n".join(p.text for p in ps))
+    return dt.DocContent(main_text="\n".join(t for _k, t in paras))
+
+
+def section_spec(paras):
+    """-> (list of section body texts that are non-empty, in order, has_heading)"""
+    secs, cur, has = [], [], False
+    for k, t in paras:
+        if k != "p" and t.strip():
+            has = True
+            secs.append(cur)
+            cur = []
+        elif k == "p" and t.strip():
+            cur.append(t.strip())
+    secs.append(cur)
+    return ["\n".join(x) for x in secs if x], has
+
+
+def section_features(cls, paras):
+    """Features of a document shape used by recorded findings (known_findings.json, `exclusion`)."""
+    f = set()
+    first_h = next((i for i, (k, t) in enumerate(paras) if k != "p" and t.strip()), None)
+    if first_h is not None and any(k == "p" and t.strip() for k, t in paras[:first_h]):
+        f.add("body-before-first-heading")
+    if any(k != "p" and not t.strip() for k, t in paras):
+        f.add("heading-without-text")
+    return sorted(f)
+
+
+def check_sections(cls, paras):
+    paras = [tuple(x) for x in paras]
+    c = build_heading_doc(cls, paras)
+    obs = observe(c)
+    want, has = section_spec(paras)
+    nums = [n for n, _t in obs]
+    inputs = {"class": cls, "paragraphs": [list(x) for x in paras], "features": section_features(cls, paras)}
+    if nums != list(range(1, len(nums) + 1)):
+        return {"target": f"data_types.py::{cls}.iterate_units", "inputs": inputs, "expected": "unit numbers 1..m",
+                "observed": repr(obs), "check": "sections"}
+    if not has:
+        ok = len(obs) == 1
+        want_s = "one unit for a document without headings"
+    else:
+        got = [t.strip() for _n, t in obs if t.strip()]
+        ok = got == want
+        want_s = f"the non-empty unit texts are the section bodies in order: {want!r}"
+    if not ok:
+        return {"target": f"data_types.py::{cls}.iterate_units", "inputs": inputs, "expected": want_s, "observed": repr(obs), "check": "sections"}
+    return None
+
+
+def section_docs(cls, max_len=5):
+    H = HEAD_TEXT[cls]
+    pool = [("h1", H["h1"]), ("h2", H["h2"]), ("p", None), ("p", ""), ("p", "same line")]
+    if cls != "DocContent":
+        pool.append(("h1", ""))
+    for n in range(0, max_len + 1):
+        for kinds in itertools.product(pool, repeat=n):
+            yield [(k, (f"body {i}" if t is None else t)) for i, (k, t) in enumerate(kinds)]
+
+
+def sweep_sections(cls, exclude=(), collect=False):
+    """First failing document whose features are not all excluded (recorded findings); with collect=True the list of
+    (features, first failing doc) per feature set."""
+    seen = {}
+    for paras in section_docs(cls):
+        feats = section_features(cls, paras)
+        if feats and set(feats) & set(exclude) and not collect:
+            continue
+        r = check_sections(cls, paras)
+        if r:
+            if not collect:
+                return r
+            seen.setdefault(tuple(feats), r)
+    return seen if collect else None
+
+
 # ---- legacy PPT: record streams built natively -----------------------------------------------------
 def _rec(rtype, data=b"", ver=0, inst=0):
     return struct.pack("<HHI", (inst << 4) | ver, rtype, len(data)) + data
@@ -338,13 +431,15 @@ def pptx_doc(slide_texts):
     buf = io.BytesIO()
     with zipfile.ZipFile(buf, "w") as z:
         z.writestr("[Content_Types].xml", '<?xml version="1.0"?><Types xmlns="http://schemas.openxmlformats.org/package/2006/content-types"/>')
-        ids = "".join(f'<p:sldId id="{256 + i}" r:id="rId{i + 1}"/>' for i in range(len(slide_texts)))
+        n = len(slide_texts)
+        part = lambda i: n - i          # slide in show position i+1 is stored as part slide<n-i>.xml (decks get re-arranged)
+        ids = "".join(f'<p:sldId id="{300 - i}" r:id="rId{i + 1}"/>' for i in range(n))
         z.writestr("ppt/presentation.xml",
                    '<?xml version="1.0"?><p:presentation xmlns:p="http://schemas.openxmlformats.org/presentationml/2006/main" '
                    'xmlns:r="http://schemas.openxmlformats.org/officeDocument/2006/relationships"><p:sldIdLst>' + ids + '</p:sldIdLst></p:presentation>')
         # relationships deliberately listed in reverse order: the order must come from sldIdLst
         rels = "".join(f'<Relationship Id="rId{i + 1}" Type="http://schemas.openxmlformats.org/officeDocument/2006/relationships/slide" '
-                       f'Target="slides/slide{i + 1}.xml"/>' for i in reversed(range(len(slide_texts))))
+                       f'Target="slides/slide{part(i)}.xml"/>' for i in reversed(range(len(slide_texts))))
         z.writestr("ppt/_rels/presentation.xml.rels",
                    '<?xml version="1.0"?><Relationships xmlns="http://schemas.openxmlformats.org/package/2006/relationships">' + rels + '</Relationships>')
         for i, t in enumerate(slide_texts):
@@ -352,8 +447,9 @@ def pptx_doc(slide_texts):
             if t is not None:
                 sp = ('<p:sp><p:nvSpPr><p:cNvPr id="2" name="tb"/><p:cNvSpPr/><p:nvPr/></p:nvSpPr><p:spPr/>'
                       f'<p:txBody><a:bodyPr/><a:p><a:r><a:t>{t}</a:t></a:r></a:p></p:txBody></p:sp>')
-            z.writestr(f"ppt/slides/slide{i + 1}.xml",
-                       '<?xml version="1.0"?><p:sld xmlns:p="http://schemas.openxmlformats.org/presentationml/2006/main" '
+            hidden = ' show="0"' if t == "Hidden" else ""
+            z.writestr(f"ppt/slides/slide{part(i)}.xml",
+                       f'<?xml version="1.0"?><p:sld{hidden} xmlns:p="http://schemas.openxmlformats.org/presentationml/2006/main" '
                        'xmlns:a="http://schemas.openxmlformats.org/drawingml/2006/main"><p:cSld><p:spTree>'
                        '<p:nvGrpSpPr><p:cNvPr id="1" name=""/><p:cNvGrpSpPr/><p:nvPr/></p:nvGrpSpPr><p:grpSpPr/>' + sp +
                        '</p:spTree></p:cSld></p:sld>')
@@ -380,7 +476,7 @@ def check_pptx(slide_texts):
 
 
 def sweep_pptx():
-    pool = ["Alpha", None, "Beta"]
+    pool = ["Alpha", None, "Beta", "Hidden"]
     for n in range(0, 4):
         for st in itertools.product(pool, repeat=n):
             r = check_pptx(list(st))
@@ -397,7 +493,7 @@ def odp_doc(slide_texts):
     pages = ""
     for i, t in enumerate(slide_texts):
         frame = "" if t is None else f'<draw:frame presentation:class="outline"><draw:text-box><text:p>{t}</text:p></draw:text-box></draw:frame>'
-        pages += f'<draw:page draw:name="p{i + 1}">{frame}</draw:page>'
+        pages += f'<draw:page draw:name="p{9 - i}">{frame}</draw:page>'      # names sort the other way round than the pages come
     with zipfile.ZipFile(buf, "w") as z:
         z.writestr("mimetype", "application/vnd.oasis.opendocument.presentation")
         z.writestr("content.xml", f'<?xml version="1.0"?><office:document-content {ns}><office:body><office:presentation>{pages}'
@@ -431,7 +527,10 @@ def epub_doc(chapter_texts):
                                              '<rootfiles><rootfile full-path="OEBPS/content.opf" media-type="application/oebps-package+xml"/></rootfiles></container>')
         # a chapter text of None = spine entry whose manifest item is missing (skipped by the extractor)
         items = "".join(f'<item id="c{i}" href="c{i}.xhtml" media-type="application/xhtml+xml"/>' for i, t in enumerate(chapter_texts) if t is not None)
-        refs = "".join(f'<itemref idref="c{i}"/>' for i in range(len(chapter_texts)))
+        # a chapter given as [text, "no"] is an auxiliary spine item (linear="no"): still spine position k
+        refs = "".join(f'<itemref idref="c{i}"' + (f' linear="{t[1]}"' if isinstance(t, (list, tuple)) else "") + "/>"
+                       for i, t in enumerate(chapter_texts))
+        chapter_texts = [t[0] if isinstance(t, (list, tuple)) else t for t in chapter_texts]
         z.writestr("OEBPS/content.opf", '<?xml version="1.0"?><package xmlns="http://www.idpf.org/2007/opf" version="3.0" unique-identifier="id">'
                                         '<metadata xmlns:dc="http://purl.org/dc/elements/1.1/"><dc:title>T</dc:title><dc:identifier id="id">x</dc:identifier></metadata>'
                                         f'<manifest>{items}</manifest><spine>{refs}</spine></package>')
@@ -446,7 +545,8 @@ def check_epub(chapter_texts):
     from sharepoint2text.parsing.extractors.epub_extractor import read_epub
     c = next(read_epub(io.BytesIO(epub_doc(chapter_texts))))
     obs = observe(c)
-    want = [(k, t) for k, t in enumerate(chapter_texts, start=1) if t is not None]     # number = 1-based spine position
+    plain = [t[0] if isinstance(t, (list, tuple)) else t for t in chapter_texts]
+    want = [(k, t) for k, t in enumerate(plain, start=1) if t is not None]     # number = 1-based spine position
     ok = [n for n, _t in obs] == [n for n, _t in want] and all(w in t for (_n, t), (_k, w) in zip(obs, want)) \
         and c.get_full_text() == spec_fulltext(obs)
     if not ok:
@@ -457,6 +557,10 @@ def check_epub(chapter_texts):
 
 
 def sweep_epub():
+    for st in (["Alpha", ["Aux", "no"], "Beta"], [["Cover", "no"], "Alpha"], ["Alpha", ["Aux", "yes"], "Beta"]):
+        r = check_epub(st)
+        if r:
+            return r
     pool = ["Alpha", "", None, "Beta"]
     for n in range(0, 4):
         for st in itertools.product(pool, repeat=n):
@@ -464,6 +568,79 @@ def sweep_epub():
             if r:
                 return r
     return None
+
+
+def xlsx_doc(sheets):
+    """sheets: [(name, [[cell,...],...])] in workbook order (names deliberately not sorted)."""
+    import openpyxl
+    wb = openpyxl.Workbook()
+    wb.remove(wb.active)
+    for name, rows in sheets:
+        ws = wb.create_sheet(name)
+        for r in rows:
+            ws.append(r)
+    buf = io.BytesIO()
+    wb.save(buf)
+    return buf.getvalue()
+
+
+SHEET_NAMES = ["Zeta", "Alpha", "Mid"]
+
+
+def _sheet_specs(kinds):
+    out = []
+    for i, k in enumerate(kinds):
+        out.append((SHEET_NAMES[i], [] if k == "empty" else [["h", "v"], [f"cell{i}", i]]))
+    return out
+
+
+def check_sheets(fmt, kinds):
+    sheets = _sheet_specs(kinds)
+    if fmt == "xlsx":
+        from sharepoint2text.parsing.extractors.ms_modern.xlsx_extractor import read_xlsx as reader
+        data = xlsx_doc(sheets)
+    else:
+        from sharepoint2text.parsing.extractors.open_office.ods_extractor import read_ods as reader
+        data = ods_doc(sheets)
+    c = next(reader(io.BytesIO(data)))
+    us = list(c.iterate_units())
+    obs = [(u.get_metadata().unit_number, u.get_metadata().sheet_name, u.get_text()) for u in us]
+    ok = [(n, nm) for n, nm, _t in obs] == [(k, nm) for k, (nm, _r) in enumerate(sheets, start=1)] \
+        and all((f"cell{i}" in t) == bool(rows) for i, ((_n, _nm, t), (_s, rows)) in enumerate(zip(obs, sheets))) \
+        and c.get_full_text() == "\n".join(t for _n, _nm, t in obs).strip()
+    if not ok:
+        return {"target": f"{fmt}_extractor.py::read_{fmt}", "inputs": {"check": "sheets", "format": fmt, "sheet_kinds": list(kinds), "sheet_names": SHEET_NAMES[:len(kinds)]},
+                "expected": "one unit per sheet in workbook order, numbered 1..n, carrying that sheet's name and cells; full text == joined unit texts",
+                "observed": repr(obs)[:400], "check": "sheets"}
+    return None
+
+
+def sweep_sheets(fmt):
+    for n in range(1, 4):
+        for kinds in itertools.product(["data", "empty"], repeat=n):
+            r = check_sheets(fmt, list(kinds))
+            if r:
+                return r
+    return None
+
+
+def ods_doc(sheets):
+    ns = ('xmlns:office="urn:oasis:names:tc:opendocument:xmlns:office:1.0" xmlns:table="urn:oasis:names:tc:opendocument:xmlns:table:1.0" '
+          'xmlns:text="urn:oasis:names:tc:opendocument:xmlns:text:1.0" xmlns:draw="urn:oasis:names:tc:opendocument:xmlns:drawing:1.0" '
+          'xmlns:xlink="http://www.w3.org/1999/xlink" xmlns:svg="urn:oasis:names:tc:opendocument:xmlns:svg-compatible:1.0"')
+    tabs = ""
+    for name, rows in sheets:
+        body = "".join("<table:table-row>" + "".join(f'<table:table-cell office:value-type="string"><text:p>{c}</text:p></table:table-cell>' for c in r)
+                       + "</table:table-row>" for r in rows)
+        tabs += f'<table:table table:name="{name}">{body}</table:table>'
+    buf = io.BytesIO()
+    with zipfile.ZipFile(buf, "w") as z:
+        z.writestr("mimetype", "application/vnd.oasis.opendocument.spreadsheet")
+        z.writestr("content.xml", f'<?xml version="1.0"?><office:document-content {ns}><office:body><office:spreadsheet>{tabs}'
+                                  '</office:spreadsheet></office:body></office:document-content>')
+        z.writestr("meta.xml", f'<?xml version="1.0"?><office:document-meta {ns}><office:meta/></office:document-meta>')
+        z.writestr("META-INF/manifest.xml", '<?xml version="1.0"?><manifest:manifest xmlns:manifest="urn:oasis:names:tc:opendocument:xmlns:manifest:1.0"/>')
+    return buf.getvalue()
 
 
 def check_pdf(n_pages):
@@ -485,33 +662,51 @@ def sweep_pdf():
     return None
 
 
-def mbox_doc(bodies):
-    out = b""
+def mbox_doc(bodies, pad="\n\n", eol="\n", header_only=()):
+    """Mailbox: every message starts with a `From ` separator LINE (that is the format's definition of a message
+    boundary); `pad` is what the writer puts after a body (a blank line, only the line end, nothing more), `eol` the
+    line ending; messages listed in header_only have no body at all (they end with their last header line)."""
+    out = ""
     for i, b in enumerate(bodies):
-        out += (f"From s{i}@x.org Mon Jan  1 00:00:0{i} 2024\nFrom: s{i}@x.org\nTo: r@x.org\nSubject: m{i}\n"
-                f"Date: Mon, 1 Jan 2024 00:00:0{i} +0000\nMessage-ID: <{i}@x>\n\n{b}\n\n").encode()
-    return out
+        out += f"From s{i}@x.org Mon Jan  1 00:00:0{i} 2024\nFrom: s{i}@x.org\nTo: r@x.org\nSubject: m{i}\n" \
+               f"Date: Mon, 1 Jan 2024 00:00:0{i} +0000\nMessage-ID: <{i}@x>\n"
+        if i in header_only:
+            continue
+        out += f"\n{b}{pad}"
+    return out.replace("\n", eol).encode()
 
 
-def check_mbox(bodies):
+def check_mbox(bodies, pad="\n\n", eol="\n", header_only=()):
     from sharepoint2text.parsing.extractors.mail.mbox_email_extractor import read_mbox_format_mail
-    res = list(read_mbox_format_mail(io.BytesIO(mbox_doc(bodies))))
+    header_only = tuple(header_only)
+    data = mbox_doc(bodies, pad, eol, header_only)
+    res = list(read_mbox_format_mail(io.BytesIO(data)))
     subj = [m.subject for m in res]
     per = [observe(m) for m in res]
-    ok = subj == [f"m{i}" for i in range(len(bodies))] and all(len(o) == 1 and o[0][0] == 1 and o[0][1] == b.strip() for o, b in zip(per, bodies)) \
+    want = [("" if i in header_only else b.replace("\n", eol).strip()) for i, b in enumerate(bodies)]
+    ok = subj == [f"m{i}" for i in range(len(bodies))] \
+        and all(len(o) == 1 and o[0][0] == 1 and o[0][1].replace("\r\n", "\n") == w.replace("\r\n", "\n") for o, w in zip(per, want)) \
         and all(m.get_full_text() == spec_fulltext(o) for m, o in zip(res, per))
     if not ok:
-        return {"target": "mbox_email_extractor.py::read_mbox_format_mail", "inputs": {"check": "mbox", "bodies": bodies},
-                "expected": "one EmailContent per message in mailbox order, each with one unit numbered 1 holding the body",
-                "observed": f"subjects={subj} units={per}", "check": "mbox"}
+        return {"target": "mbox_email_extractor.py::read_mbox_format_mail",
+                "inputs": {"check": "mbox", "bodies": bodies, "pad": pad, "eol": eol, "header_only": list(header_only), "mbox": data.decode()},
+                "expected": "one EmailContent per `From ` separator line, in mailbox order, each with one unit numbered 1 holding that message's body",
+                "observed": f"{len(res)} message(s): subjects={subj} units={per}", "check": "mbox"}
     return None
 
 
 def sweep_mbox():
     pool = ["hello", "", "two\nlines"]
-    for n in range(1, 4):
-        for st in itertools.product(pool, repeat=n):
-            r = check_mbox(list(st))
+    for pad in ("\n\n", "\n"):                 # blank line after every message / only the line end
+        for eol in ("\n", "\r\n"):
+            for n in range(1, 4):
+                for st in itertools.product(pool, repeat=n):
+                    r = check_mbox(list(st), pad, eol)
+                    if r:
+                        return r
+    for ho in ((0,), (1,), (0, 1)):               # messages without a body
+        for eol in ("\n", "\r\n"):
+            r = check_mbox(["a", "b", "c"], "\n\n", eol, ho)
             if r:
                 return r
     return None
@@ -530,8 +725,9 @@ def sweeps_for(target):
         if f"{cls}." in t:
             out.append(("single:" + cls, lambda cls=cls: sweep_single(cls)))
     for cls in ("DocContent", "DocxContent", "OdtContent"):
-        if f"{cls}." in t:
+        if f"{cls}." in t or f"[{cls}]" in t:
             out.append(("heading:" + cls, lambda cls=cls: sweep_heading(cls)))
+            out.append(("sections:" + cls, lambda cls=cls: sweep_sections(cls, exclude=EXCLUDE.get(cls, ()))))
     if "_join_unit_text" in t:
         out.append(("join", sweep_join))
     if "_build_slides_from_text_blocks" in t:
@@ -549,6 +745,10 @@ def sweeps_for(target):
         out.append(("epub", sweep_epub))
     if "pdf_extractor" in t:
         out.append(("pdf", sweep_pdf))
+    if "xlsx_extractor" in t:
+        out.append(("xlsx", lambda: sweep_sheets("xlsx")))
+    if "ods_extractor" in t:
+        out.append(("ods", lambda: sweep_sheets("ods")))
     if "mbox" in t:
         out.append(("mbox", sweep_mbox))
     return out
@@ -562,14 +762,34 @@ def all_sweeps():
         out.append(("single:" + cls, lambda cls=cls: sweep_single(cls)))
     for cls in ("DocContent", "DocxContent", "OdtContent"):
         out.append(("heading:" + cls, lambda cls=cls: sweep_heading(cls)))
+        out.append(("sections:" + cls, lambda cls=cls: sweep_sections(cls, exclude=_recorded(cls))))
     out += [("join", sweep_join), ("ppt_build", sweep_ppt_build), ("ppt_parse", sweep_ppt_parse), ("ppt_fixture", check_ppt_fixture),
-            ("rtf", sweep_rtf), ("pptx", sweep_pptx), ("odp", sweep_odp), ("epub", sweep_epub), ("pdf", sweep_pdf), ("mbox", sweep_mbox)]
+            ("rtf", sweep_rtf), ("pptx", sweep_pptx), ("odp", sweep_odp), ("epub", sweep_epub), ("pdf", sweep_pdf), ("mbox", sweep_mbox),
+            ("xlsx", lambda: sweep_sheets("xlsx")), ("ods", lambda: sweep_sheets("ods"))]
     return out
+
+
+EXCLUDE = {}      # class -> features excluded by recorded findings (filled from the request)
+
+
+def _recorded(cls):
+    import json
+    try:
+        kf = json.load(open(os.path.join(os.path.dirname(os.path.dirname(os.path.abspath(__file__))), "known_findings.json")))["findings"]
+    except (OSError, ValueError, KeyError):
+        return ()
+    return sorted({x for f in kf if f.get("property") == "C03" and f.get("class") == cls for x in f.get("exclusion", [])})
 
 
 def find(req):
     import logging
     logging.disable(logging.CRITICAL)
+    EXCLUDE.clear()
+    EXCLUDE.update(req.get("exclude_features") or {})
+    if req.get("known_finding"):
+        w = req.get("witness") or {}
+        r = check_sections(w["class"], w["paragraphs"])
+        return dict(r or {}, reproduced=r is not None)
     target = (req.get("function") or "") + " " + (req.get("obligation") or "")
     sw = sweeps_for(target)
     if not sw:
@@ -595,6 +815,10 @@ def rerun(stored):
         r = check_single(inp["class"], inp["text"], inp.get("html", ""))
     elif chk == "join":
         r = check_join(inp["unit_texts"])
+    elif chk == "sheets":
+        r = check_sheets(inp["format"], inp["sheet_kinds"])
+    elif chk == "sections":
+        r = check_sections(inp["class"], inp["paragraphs"])
     elif chk == "heading":
         r = check_heading(inp["class"], inp["paragraph_kinds"])
     elif chk == "ppt_parse":
@@ -614,7 +838,7 @@ def rerun(stored):
     elif chk == "pdf":
         r = check_pdf(inp["blank_pages"])
     elif chk == "mbox":
-        r = check_mbox(inp["bodies"])
+        r = check_mbox(inp["bodies"], inp.get("pad", "\n\n"), inp.get("eol", "\n"), inp.get("header_only", ()))
     if r:
         r["reproduced"] = True
         return r
